@@ -214,6 +214,27 @@ def dump(d, s):
     return d.call(s, "cpp", "GetDumpString")
 
 
+DUMP_OPTION = {"SOLUTION_RAW": "solution", "EQUILIBRIUM_PHASES_RAW": "equilibrium_phases", "EXCHANGE_RAW": "exchange", "SURFACE_RAW": "surface",
+               "GAS_PHASE_RAW": "gas_phase", "SOLID_SOLUTIONS_RAW": "solid_solutions", "KINETICS_RAW": "kinetics", "MIX_RAW": "mix",
+               "REACTION_RAW": "reaction", "REACTION_TEMPERATURE_RAW": "temperature", "REACTION_PRESSURE_RAW": "pressure"}
+
+
+def dump_by_kind(d, s, d1):
+    """The same state dumped one entity kind per DUMP block (each the only content of its call), in the order of d1."""
+    kinds = {}
+    for line in d1.split("\n"):
+        m = _HDRLINE.match(line)
+        if m and m.group(1) in DUMP_OPTION and int(m.group(2)) >= 0:
+            kinds.setdefault(m.group(1), []).append(int(m.group(2)))
+    parts = []
+    for kw, nums in kinds.items():
+        rc, err, _ = rs(d, s, "DUMP\n -%s %s\nEND\n" % (DUMP_OPTION[kw], " ".join(str(n) for n in nums)))
+        if rc != 0:
+            raise RuntimeError("DUMP -%s fails: %s" % (DUMP_OPTION[kw], err[:300]))
+        parts.append(d.call(s, "cpp", "GetDumpString"))
+    return "".join(parts), len(kinds)
+
+
 def table(d, s):
     t = d.obs(s, "cpp", "t")["sel"].get("1", {}).get("table") or []
     return [[c["l"] if isinstance(c, dict) and "l" in c else c for c in r] for r in t]
@@ -513,6 +534,14 @@ def _run_case(d, case, out):
     others = raw.other(d1)
     key = core.sha(raw.canonical(mask_ss_p(d1), 12))
     tag = "state: %s" % case_name(case)
+    # the text of an entity does not depend on what else the DUMP block selected
+    dk, nk = dump_by_kind(d, A, d1)
+    out["ops"] += nk
+    nouse = lambda t: "".join(l for l in t.splitlines(True) if not l.startswith("USE "))      # the 'USE <kind> none' footer of every DUMP
+    chk = changed_fields(nouse(d1), nouse(dk))
+    if chk:
+        problems.append(("dump-by-kind-differs-from-dump-all fields=%s" % ",".join(chk)[:200],
+                         "the state dumped one entity kind per DUMP block differs from DUMP -all of the same state in %s\n%s\n%s" % (", ".join(chk), first_diff(nouse(d1), nouse(dk)), tag)))
     out.update(key=key, states=[key], outcome=key, cell=signature(blocks))
     stats = {"first_cycle": [], "wb_dump": {}, "worst": {}, "judged": 0, "fu_not_completed": 0, "read_warnings": 0, "modify_fu_not_completed": 0, "redox": {}, "redox_limited": 0}
     out["stats"] = stats
